@@ -23,11 +23,124 @@ theorem evalAt_eq (c : Ctx) (key : String) (gs : Fields) :
     · simp [evalAt, dget, h]
     · simp [evalAt, dget, h, ih]
 
+theorem eval_single (c : Ctx) (k : String) (v : Val) :
+    eval c (.doc [(k, v)]) = evalDoc c [(k, v)] [] := by
+  simp [eval]
+
+/-- a field of a computed document: its value is evaluated; a missing value leaves the field out
+    (`ignore_missing_keys`) or makes the whole document missing -/
+theorem evalDoc_plain (c : Ctx) (k : String) (v : Val) (rest acc : Fields)
+    (hk : classify k = .plain) :
+    evalDoc c ((k, v) :: rest) acc =
+      (eval c v).bind (fun r =>
+        match r with
+        | none => if c.ign then evalDoc c rest acc else .ok none
+        | some x => evalDoc c rest (dset k x acc)) := by
+  cases v <;>
+  · rw [evalDoc]
+    · simp only [hk]; rfl
+    all_goals (intro xs h; cases h)
+
+/-- how `eval` runs `{$op: v}`: an operator that takes one argument unwraps a one-item argument
+    list, a variadic one wraps a bare operand, then the handler of the operator runs -/
+theorem eval_op (c : Ctx) (k : String) (v : Val) (h1 : classify k ≠ .plain)
+    (h2 : classify k ≠ .unknown) (h3 : classify k ≠ .notImpl) :
+    eval c (.doc [(k, v)]) =
+      if (unaryListOps.contains k && v.isArr) = true then
+        (match v with
+         | .arr xs => evalUnaryList c k xs
+         | _ => .error .other)
+      else if (variadicOps.contains k && !v.isArr) = true then
+        (eval c v).bind (applyBare c.ign k)
+      else
+        match mode k v with
+        | .const r => r
+        | .whole => (eval c v).bind (applyWhole c.ign k)
+        | .shaped => evalOp c k v := by
+  rw [eval_single]
+  cases v <;>
+  · rw [evalDoc]
+    · generalize classify k = cls at h1 h2 h3
+      cases cls <;> simp at h1 h2 h3 <;> simp [Val.isArr] <;> rfl
+    all_goals (intro xs h; cases h)
+
+/-- the plain case: neither a one-item list for a unary operator nor a bare variadic operand -/
+theorem eval_op_plain (c : Ctx) (k : String) (v : Val) (h1 : classify k ≠ .plain)
+    (h2 : classify k ≠ .unknown) (h3 : classify k ≠ .notImpl)
+    (hu : (unaryListOps.contains k && v.isArr) = false)
+    (hv : (variadicOps.contains k && !v.isArr) = false) :
+    eval c (.doc [(k, v)]) =
+      match mode k v with
+      | .const r => r
+      | .whole => (eval c v).bind (applyWhole c.ign k)
+      | .shaped => evalOp c k v := by
+  rw [eval_op c k v h1 h2 h3, hu, hv]
+  simp
+
+/-- `{$op: [x]}` for an operator that takes exactly one argument -/
+theorem eval_op_unary_list (c : Ctx) (k : String) (x : Val) (h1 : classify k ≠ .plain)
+    (h2 : classify k ≠ .unknown) (h3 : classify k ≠ .notImpl)
+    (hu : unaryListOps.contains k = true) :
+    eval c (.doc [(k, .arr [x])]) =
+      match mode k x with
+      | .const r => r
+      | .whole => (eval c x).bind (applyWhole c.ign k)
+      | .shaped => evalOp c k x := by
+  rw [eval_op c k _ h1 h2 h3]
+  simp only [hu, Val.isArr, Bool.and_self, if_true, evalUnaryList]
+  cases mode k x <;> rfl
+
+/-- any other number of items is rejected -/
+theorem eval_op_unary_arity (c : Ctx) (k : String) (xs : List Val) (h1 : classify k ≠ .plain)
+    (h2 : classify k ≠ .unknown) (h3 : classify k ≠ .notImpl)
+    (hu : unaryListOps.contains k = true) (hlen : xs.length ≠ 1) :
+    eval c (.doc [(k, .arr xs)]) = .error .opFail := by
+  rw [eval_op c k _ h1 h2 h3]
+  simp only [hu, Val.isArr, Bool.and_self, if_true]
+  match xs, hlen with
+  | [], _ => rfl
+  | [_], h => simp at h
+  | _ :: _ :: _, _ => rfl
+
+/-- an operator that is neither unary nor variadic (or a variadic one given a list) whose handler
+    takes its argument apart -/
+theorem eval_shaped (c : Ctx) (k : String) (v : Val) (h1 : classify k ≠ .plain)
+    (h2 : classify k ≠ .unknown) (h3 : classify k ≠ .notImpl)
+    (hu : unaryListOps.contains k = false)
+    (hv : variadicOps.contains k = false ∨ v.isArr = true) (hm : mode k v = .shaped) :
+    eval c (.doc [(k, v)]) = evalOp c k v := by
+  rw [eval_op_plain c k v h1 h2 h3 (by rw [hu]; rfl)
+    (by rcases hv with h | h <;> rw [h] <;> simp), hm]
+
+/-- likewise for a handler that parses its whole argument -/
+theorem eval_whole' (c : Ctx) (k : String) (v : Val) (h1 : classify k ≠ .plain)
+    (h2 : classify k ≠ .unknown) (h3 : classify k ≠ .notImpl)
+    (hu : unaryListOps.contains k = false ∨ v.isArr = false)
+    (hv : variadicOps.contains k = false ∨ v.isArr = true) (hm : mode k v = .whole) :
+    eval c (.doc [(k, v)]) = (eval c v).bind (applyWhole c.ign k) := by
+  rw [eval_op_plain c k v h1 h2 h3 (by rcases hu with h | h <;> rw [h] <;> simp)
+    (by rcases hv with h | h <;> rw [h] <;> simp), hm]
+
+/-- an array literal evaluates to an array -/
+theorem eval_arr (c : Ctx) (xs : List Val) :
+    eval c (.arr xs) = (evalItems c xs).map (fun ys => some (.arr ys)) := by
+  simp only [eval]
+  cases evalItems c xs <;> rfl
+
+theorem eval_arr_ok (c : Ctx) (xs : List Val) (r : Option Val) (h : eval c (.arr xs) = .ok r) :
+    ∃ ys, r = some (.arr ys) := by
+  rw [eval_arr] at h
+  cases hi : evalItems c xs with
+  | error e => simp [hi, Except.map] at h
+  | ok ys => simp [hi, Except.map] at h; exact ⟨ys, h.symm⟩
+
 /-! ### `$literal` -/
 
 theorem literal_id (c : Ctx) (v : Val) : eval c (.doc [("$literal", v)]) = .ok (some v) := by
-  have h1 : classify "$literal" = .projection := by decide
-  simp [eval, evalDoc, startsDollar, h1, mode]
+  rw [eval_op_plain c "$literal" v (by decide) (by decide) (by decide)
+    (by rw [show unaryListOps.contains "$literal" = false by decide]; rfl)
+    (by rw [show variadicOps.contains "$literal" = false by decide]; rfl)]
+  simp [mode]
 
 /-! ### truthiness -/
 
@@ -63,14 +176,28 @@ theorem toBool_false_iff (v : Val) :
 
 /-! ### `$not`, `$and`, `$or` -/
 
-theorem not_spec (c : Ctx) (e : Val) :
+theorem not_whole (e : Val) : mode "$not" e = .whole := by
+  simp [mode, dateOps, datePartOps, wholeOps, unaryArithOps]
+
+theorem applyWhole_not (ign : Bool) :
+    applyWhole ign "$not" = fun r => .ok (some (.bool (!Spec.toBool r))) := by
+  funext r
+  simp [applyWhole, unaryArithOps, toBoolOpt_eq]
+
+/-- `{$not: e}` with `e` not written as a list -/
+theorem not_spec (c : Ctx) (e : Val) (he : e.isArr = false) :
     eval c (.doc [("$not", e)]) =
       (eval c e).bind (fun r => .ok (some (.bool (!Spec.toBool r)))) := by
-  have h1 : classify "$not" = .boolean := by decide
-  have h2 : mode "$not" e = .whole := by
-    simp [mode, dateOps, datePartOps, wholeOps, unaryArithOps]
-  simp [eval, evalDoc, h1, h2, applyWhole, unaryArithOps, toBoolOpt_eq]
-  rfl
+  rw [eval_op_plain c "$not" e (by decide) (by decide) (by decide) (by rw [he, Bool.and_false])
+    (by rw [show variadicOps.contains "$not" = false by decide]; rfl), not_whole]
+  simp only [applyWhole_not]
+
+/-- `{$not: [x]}` is `$not` of `x` (it used to be the constant false: finding `arrayliteral`) -/
+theorem not_list_spec (c : Ctx) (x : Val) :
+    eval c (.doc [("$not", .arr [x])]) =
+      (eval c x).bind (fun r => .ok (some (.bool (!Spec.toBool r)))) := by
+  rw [eval_op_unary_list c "$not" x (by decide) (by decide) (by decide) (by decide), not_whole]
+  simp only [applyWhole_not]
 
 theorem evalAll_ok (c : Ctx) (xs : List Val) (rs : List (Option Val))
     (h : xs.map (eval c) = rs.map .ok) : evalAll c xs = .ok rs := by
@@ -106,7 +233,10 @@ theorem and_spec (c : Ctx) (xs : List Val) (rs : List (Option Val))
     simp [arityErr, binaryArithOps, comparisonOps]
   have h4 : listOps.contains "$and" = false := by decide
   have ht : (fun r => toBoolOpt r) = Spec.toBool := funext toBoolOpt_eq
-  simp [eval, evalDoc, h1, h2, evalOp, h3, h4, evalAll_ok c xs rs h]
+  rw [eval_op_plain c "$and" _ (by decide) (by decide) (by decide)
+    (by rw [show unaryListOps.contains "$and" = false by decide]; rfl)
+    (by simp [Val.isArr]), h2]
+  simp [evalOp, h3, h4, evalAll_ok c xs rs h]
   simp [← ht]
   rfl
 
@@ -119,7 +249,10 @@ theorem or_spec (c : Ctx) (xs : List Val) (rs : List (Option Val))
   have h3 : arityErr "$or" xs.length = none := by
     simp [arityErr, binaryArithOps, comparisonOps]
   have h4 : listOps.contains "$or" = false := by decide
-  simp [eval, evalDoc, h1, h2, evalOp, h3, h4, evalOr_ok c xs rs h]
+  rw [eval_op_plain c "$or" _ (by decide) (by decide) (by decide)
+    (by rw [show unaryListOps.contains "$or" = false by decide]; rfl)
+    (by simp [Val.isArr]), h2]
+  simp [evalOp, h3, h4, evalOr_ok c xs rs h]
   rfl
 
 end MongoModel.Proofs.C04
